@@ -250,6 +250,39 @@ def through_samples(ctx):
                                       observed={"l": lb, "inv": inv})
                 else:
                     ctx.violation("Ok sample with a non-finite decomposition although the stability test is on", small, observed=a["meta"]["decomp"])
+    sample_window_probes(ctx, ss)
+
+
+def sample_window_probes(ctx, ss):
+    """through `sample` with metadata on: tolerances placed between the binary64 values of ||inverse*L - 1||_21 and ||L*inverse - 1||_21 of the
+    sample's own L matrix - the verdict is the one of the first (what the property and the model use), whoever performs the test"""
+    from .. import samples as S
+    cand = []
+    for s in ss:
+        a = s["impl"]; n = s["routing"]["L"]
+        if a.get("status") != "ok" or n < 2 or not a.get("meta"):
+            continue
+        lb, ib = a["meta"]["l"], a["meta"]["decomp"].get("inv", [])
+        if not ib or not all(X.is_finite_bits(b) for b in lb + ib):
+            continue
+        Lf = [[b2f(lb[r * n + c]) for c in range(n)] for r in range(n)]
+        invf = [[b2f(ib[r * n + c]) for c in range(n)] for r in range(n)]
+        d1 = float_l21_residual(n, Lf, invf); d2 = float_l21_residual_of_product(n, Lf, invf)
+        if not (math.isfinite(d1) and math.isfinite(d2)) or d1 == d2 or abs(d1 - d2) <= 0.02 * max(d1, d2):
+            continue
+        tol = 0.5 * (d1 + d2)
+        for meta in (True, False):
+            rq = S.sample_request(s["case"], s["routing"], s["table"], s["xs"], tol=tol, meta=meta)
+            cand.append((s, rq, d1, d2, tol, meta))
+        if len(cand) >= (40 if ctx.quick else 240):
+            break
+    for (s, rq, d1, d2, tol, meta), a in zip(cand, run_harness([c[1] for c in cand])):
+        ctx.case(["sample_window", rq["x"], rq.get("tol"), meta, s["case"]["edges"]], nontrivial=True); ctx.count("sample_window_probe")
+        want = "unstable" if d1 > tol else "ok"
+        if a.get("status") != want:
+            ctx.violation(f"sample (return_metadata={meta}) with a tolerance {tol:.4e} between ||inverse*L-1||_21 = {d1:.4e} and ||L*inverse-1||_21 = {d2:.4e} "
+                          f"returns {a.get('status')}; the stability test compares the first with the tolerance: {want}", dict(S.small_req(dict(s, req=rq))),
+                          expected=want, observed=a.get("status"))
 
 
 def window_probes(ctx):
